@@ -20,7 +20,7 @@
 -/
 import FcModel.Predicates
 import FcGen.Tables
-namespace Fc.Cli
+namespace Fc.C04
 open Fc
 
 /-! ### status enums (members / falsy sets come from the regenerated tables) -/
@@ -529,4 +529,4 @@ def scenarioHyp (pf : String → FloatLit) (s : Scenario) : Bool :=
      | .seqs n m steps => 0 < n && 0 < m && min n m ≤ steps.length && steps.all (pairHyp o)
      | .mixed => true)
 
-end Fc.Cli
+end Fc.C04
